@@ -1666,6 +1666,7 @@ METHOD_RULES_PRE = [
 ]
 METHOD_RULES = [
     (r'\.\s*lines\s*\(\s*\)\s*\.\s*map\s*\(\s*\|\s*s\s*\|\s*s\s*\.\s*to_string\s*\(\s*\)\s*\)\s*\.\s*filter\s*\(\s*\|\s*s\s*\|\s*!\s*s\s*\.\s*is_empty\s*\(\s*\)\s*\)\s*\.\s*collect\s*\(\s*\)', 'vx_nonempty_lines()', 'rename_whole', 'str.lines().map(to_string).filter(non-empty).collect()->vx_nonempty_lines'),
+    (r'\.\s*lines\s*\(\s*\)\s*\.\s*filter\s*\(\s*\|\s*s\s*\|\s*!\s*s\s*\.\s*is_empty\s*\(\s*\)\s*\)\s*\.\s*map\s*\(\s*\|\s*s\s*\|\s*s\s*\.\s*to_string\s*\(\s*\)\s*\)\s*\.\s*collect\s*\(\s*\)', 'vx_nonempty_lines()', 'rename_whole', 'str.lines().filter(non-empty).map(to_string).collect()->vx_nonempty_lines'),
     (r'\.\s*abs\s*\(\s*\)\s*<\s*([0-9.]+)', r'vx_abs_lt(\1)', 'replace_tail', 'f64.abs() < c -> vx_abs_lt(c)'),
     (r'\.\s*format\s*\(\s*"%y%m%d"\s*\)', 'vx_fmt_yymmdd()', 'rename_whole', 'chrono NaiveDate.format("%y%m%d")->vx_fmt_yymmdd'),
     (r'\.\s*format\s*\(\s*"%H%M"\s*\)', 'vx_fmt_hhmm()', 'rename_whole', 'chrono NaiveTime.format("%H%M")->vx_fmt_hhmm'),
